@@ -99,3 +99,123 @@ Proof.
   intros Hs. unfold int_arith. rewrite Hs, Z.eqb_refl. split; reflexivity.
 Qed.
 
+
+(* ---------------------------------------------------------------------------------------- *)
+(* fuel monotonicity: a result other than "out of fuel" is stable under more fuel             *)
+
+Definition refines (ev1 ev2 : env -> expr -> res * env) : Prop :=
+  forall s e r s', ev1 s e = (r, s') -> r <> RFuel -> ev2 s e = (r, s').
+
+Lemma eval_list_mono ev1 ev2 :
+  refines ev1 ev2 ->
+  forall es s l s', eval_list ev1 s es = (l, s') -> l <> LErr RFuel -> eval_list ev2 s es = (l, s').
+Proof.
+  intros Href. induction es as [|e es IH]; intros s l s' H Hl; cbn [eval_list] in *.
+  - exact H.
+  - destruct (ev1 s e) as [r1 s1] eqn:E1.
+    assert (Hr1 : r1 <> RFuel).
+    { intros ->. inversion H; subst. congruence. }
+    rewrite (Href _ _ _ _ E1 Hr1).
+    destruct r1; try exact H.
+    destruct (eval_list ev1 s1 es) as [l2 s2] eqn:E2.
+    assert (Hl2 : l2 <> LErr RFuel).
+    { intros ->. inversion H; subst. congruence. }
+    rewrite (IH _ _ _ E2 Hl2). exact H.
+Qed.
+
+Lemma eval_args_mono ev1 ev2 :
+  refines ev1 ev2 ->
+  forall a s l s', eval_args ev1 s a = (l, s') -> l <> LErr RFuel -> eval_args ev2 s a = (l, s').
+Proof.
+  intros Href. induction a as [|x a IH]; intros s l s' H Hl; cbn [eval_args] in *.
+  - exact H.
+  - destruct x as [e|y].
+    + destruct (ev1 s e) as [r1 s1] eqn:E1.
+      assert (Hr1 : r1 <> RFuel).
+      { intros ->. inversion H; subst. congruence. }
+      rewrite (Href _ _ _ _ E1 Hr1).
+      destruct r1; try exact H.
+      destruct (eval_args ev1 s1 a) as [l2 s2] eqn:E2.
+      assert (Hl2 : l2 <> LErr RFuel).
+      { intros ->. inversion H; subst. congruence. }
+      rewrite (IH _ _ _ E2 Hl2). exact H.
+    + apply IH; assumption.
+Qed.
+
+(* one evaluation step of the proof: name a closed sub-evaluation of the hypothesis, show that it
+   did not run out of fuel (else the whole would have), transport it to the bigger fuel *)
+Ltac mono_step IH m :=
+  match goal with
+  | H : context [eval ?p ?n ?s ?e] |- _ =>
+      let r1 := fresh "r" in let s1 := fresh "s" in let E := fresh "E" in
+      destruct (eval p n s e) as [r1 s1] eqn:E;
+      let Hr := fresh "Hr" in
+      assert (Hr : r1 <> RFuel) by
+        (let X := fresh in intros X; rewrite X in *; cbn in H;
+         match type of H with (?a, _) = (?b, _) => try (inversion H; subst; congruence) end);
+      rewrite (IH _ _ _ _ E Hr m ltac:(lia));
+      destruct r1; cbn in H |- *; try (exact H); try congruence
+  end.
+
+Lemma eval_mono p : forall n s e r s',
+  eval p n s e = (r, s') -> r <> RFuel -> forall m, (n <= m)%nat -> eval p m s e = (r, s').
+Proof.
+  induction n as [|n IH]; intros s e r s' H Hr m Hm.
+  - cbn in H. inversion H; subst. congruence.
+  - destruct m as [|m]; [lia|]. assert (Hnm : (n <= m)%nat) by lia.
+    assert (Href : refines (eval p n) (eval p m)).
+    { intros s0 e0 r0 s0' H0 Hr0. eapply IH; eauto. }
+    destruct e; cbn [eval] in H |- *; unfold bindv, pop, unit_res, stuck in *.
+    all: try exact H.
+    all: try solve [
+              repeat mono_step IH m;
+              repeat match goal with
+                | H : context [match ?v with _ => _ end] |- _ =>
+                    match v with
+                    | context [eval] => fail 1
+                    | _ => destruct v eqn:?; cbn in H |- *; try exact H; try congruence
+                    end
+                end;
+              repeat mono_step IH m;
+              try exact H; try (eapply IH; eauto; fail) ].
+    + (* ETup *)
+      destruct (eval_list (eval p n) s es) as [l s1] eqn:E.
+      assert (Hl : l <> LErr RFuel).
+      { intros ->. inversion H; subst. congruence. }
+      rewrite (eval_list_mono _ _ Href _ _ _ _ E Hl). exact H.
+    + (* ECall *)
+      destruct (nth_error p f) as [fd|]; [|exact H].
+      destruct (eval_args (eval p n) s args) as [l s1] eqn:E.
+      assert (Hl : l <> LErr RFuel).
+      { intros ->. inversion H; subst. congruence. }
+      rewrite (eval_args_mono _ _ Href _ _ _ _ E Hl).
+      destruct l as [vs|o]; [|exact H].
+      destruct (bind_params (fparams fd) args vs s1) as [c|]; [|exact H].
+      destruct (eval p n c (fbody fd)) as [rb c'] eqn:Eb.
+      assert (Hrb : rb <> RFuel).
+      { intros ->. inversion H; subst. congruence. }
+      rewrite (IH _ _ _ _ Eb Hrb m Hnm). exact H.
+Qed.
+
+(* whole-function form *)
+Lemma eval_fn_mono p f args n o :
+  eval_fn p f args n = o -> o <> OutOfFuel -> forall m, (n <= m)%nat -> eval_fn p f args m = o.
+Proof.
+  unfold eval_fn. intros H Ho m Hm.
+  destruct (nth_error p f) as [fd|]; [|exact H].
+  destruct (entry_env (fparams fd) args) as [c|]; [|exact H].
+  destruct (eval p n c (fbody fd)) as [r c'] eqn:E. cbn [fst] in H.
+  assert (Hr : r <> RFuel).
+  { intros ->. subst o. congruence. }
+  rewrite (eval_mono p _ _ _ _ _ E Hr m Hm). exact H.
+Qed.
+
+Lemma eval_fn_deterministic p f args n m o1 o2 :
+  eval_fn p f args n = o1 -> eval_fn p f args m = o2 ->
+  o1 <> OutOfFuel -> o2 <> OutOfFuel -> o1 = o2.
+Proof.
+  intros H1 H2 N1 N2.
+  rewrite <- (eval_fn_mono _ _ _ _ _ H1 N1 (max n m) (Nat.le_max_l n m)).
+  rewrite <- (eval_fn_mono _ _ _ _ _ H2 N2 (max n m) (Nat.le_max_r n m)).
+  reflexivity.
+Qed.
